@@ -246,6 +246,27 @@ class Gen:
                     R.append("R fd %d 1 %d fd_unreg %d" % (f, r.choice([1, 2]), g))
                     if r.random() < 0.6:
                         R.append("R fd %d 1 %d fd_reg %d 1 0 0" % (f, r.choice([1, 2]), g))
+        elif mode == "never" and self.n["tm"] >= 3:
+            # a "never" timer (decades away) next to ordinary ones: it must not get in their way; the last
+            # ordinary timer to run takes it away again
+            n = self.n["tm"]
+            far = r.randint(1, n)
+            order = list(range(1, n + 1))
+            r.shuffle(order)
+            near = []
+            for t in order:
+                if t == far:
+                    L.append("S tm_reg %d 1 %d 0" % (t, r.choice([3000000000, 2147483648, 4000000000])))
+                elif r.random() < 0.8 or not near:
+                    ms = r.randint(1, 400)
+                    L.append("S tm_reg %d 1 0 %d" % (t, ms * 1000000))
+                    near.append((ms, t))
+            last = max(near)[1]
+            R.append("R tm %d 0 1 tm_unreg %d" % (last, far))
+            if r.random() < 0.5 and len(near) > 1:
+                a = r.choice(near)[1]
+                R.append("R tm %d 0 1 tm_reg %d 1 0 %d" % (a, a, r.randint(1, 50) * 1000000))
+            maxwait = 30
         elif mode == "heap" and self.n["tm"] >= 6:
             # a populated timer heap: interior / last / root removals, then time passes
             n = self.n["tm"]
@@ -306,6 +327,16 @@ class Gen:
                     if r.random() < 0.7:
                         R.append("R tk %d 0 %d tk_reg %d" % (k, r.choice([1, 1, 0]), k))
         elif mode == "tasks" and self.n["tk"]:
+            if r.random() < 0.35:
+                # a loop that has been running for a long time (round counter near a 16 / 32 bit boundary)
+                L.append("S warp_epoch %d" % r.choice([65530, 65534, 65536, 4294967290, 131070]))
+                k = self.pick_obj("tk")
+                L.append("S tk_reg %d" % k)
+                R.append("R tk %d 0 0 tk_reg %d" % (k, k))      # keeps re-registering itself
+                if self.n["fd"]:
+                    f = self.pick_obj("fd")
+                    L += ["S fd_newos %d" % f, "S fd_reg %d 1 0 0" % f, "S pwrite %d 3" % f]
+                    R.append("R fd %d 1 %d drain %d" % (f, r.randint(4, 12), f))
             for k in range(1, self.n["tk"] + 1):
                 if r.random() < 0.8:
                     L.append("S tk_reg %d" % k)
